@@ -182,6 +182,9 @@ class C09(Check):
             rng.shuffle(plan["skip"])  # a list handed over through the Python API comes in any order
         # which response code the ECU refuses a session change with
         plan["refuse_nrc"] = rng.choice([None, None, 0x12, 0x12, 0x7E])  # (other codes make the scanner list the session as "identified but not activated": a different report)
+        # some session changes are answered busyRepeatRequest the first time (the client's retries take care of it)
+        edges_ = [(a_, b_) for a_, ts_ in g.items() for b_ in ts_]
+        plan["busy_once"] = [list(e_) for e_ in rng.sample(edges_, min(len(edges_), rng.choice([1, 2, 4])))] if rng.random() < 0.25 else []
         plan["reset"] = rng.random() < 0.2
         plan["offer_reset"] = rng.random() < 0.8
         plan["db"] = rng.random() < 0.4
@@ -253,6 +256,7 @@ class C09(Check):
         world.sql.latency = lambda c, n: 0.0003
         world.install(capture=lambda r: getattr(r, "tags", None) == ["result"])
         ecu = GraphECU(graph, offer_reset=plan["offer_reset"], refuse_nrc=plan.get("refuse_nrc"))
+        ecu.busy_once = {tuple(e_) for e_ in plan.get("busy_once") or []}
         kw: dict[str, Any] = {}
         if plan["db"]:
             kw["db"] = tmp / "db.sqlite"
@@ -367,6 +371,8 @@ class C09(Check):
             bump(res["faults"], "reset_between_probes")
         if plan.get("prior_depth"):
             bump(res["faults"], "earlier_scan_in_same_database")
+        if getattr(ecu, "busy_fired", 0):
+            bump(res["faults"], "session_change_answered_busy_once", ecu.busy_fired)
         if plan.get("skip_expr"):
             bump(res["faults"], "skip_as_range_expression")
         if 1 in skip:
